@@ -1161,18 +1161,18 @@ func runNode(hist []Op, open int, pre, preSeal map[string]string) nodeResult {
 		if acc[0] != r.Accepted && !hasTwo(fs) {
 			fs = append(fs, decision(o.K, acc[0], r))
 		}
+		res.dump = w.dump()
+		if acc[0] == r.Accepted {
+			fs = rejectedCheck(fs, preSeal, res.dump, t, r)
+		}
 		addF(fs, "after the block")
 	}
 
 	if open < 0 {
-		res.dump = w.dump()
-		res.sealDump = res.dump
-		isTx := len(hist) > 0 && hist[len(hist)-1].K != "release"
-		if isTx && (!lastRes.Accepted || lastRes.Reason == "ok-zero") && preSeal != nil && !res.diverged {
-			if d := unchangedButFee(preSeal, res.dump, lastTx.Source); d != "" {
-				addF([]finding{{Sig: "C20:rejected-tx-changed-state:" + kindName(lastTx.Kind), Msg: "a transaction rejected for " + lastRes.Reason + " changed: " + d, Diverged: true}}, "after the block")
-			}
+		if res.dump == nil {
+			res.dump = w.dump()
 		}
+		res.sealDump = res.dump
 		res.key = stateKey(res.dump, m)
 		res.nontriv = nontrivial(m)
 		res.blocks = len(blocks)
@@ -1208,14 +1208,11 @@ func runNode(hist []Op, open int, pre, preSeal map[string]string) nodeResult {
 		if acc != r.Accepted && !hasTwo(fs) {
 			fs = append(fs, decision(o.K, acc, r))
 		}
-		addF(fs, "inside the block, after its last transaction")
-	}
-	res.dump = w.dump()
-	noChange := !lastRes.Accepted || lastRes.Reason == "ok-zero"
-	if noChange && pre != nil && !res.diverged {
-		if d := unchangedButFee(pre, res.dump, lastTx.Source); d != "" {
-			addF([]finding{{Sig: "C20:rejected-tx-changed-state:" + kindName(lastTx.Kind), Msg: "a transaction rejected for " + lastRes.Reason + " changed: " + d, Diverged: true}}, "inside the block")
+		res.dump = w.dump()
+		if acc == r.Accepted {
+			fs = rejectedCheck(fs, pre, res.dump, t, r)
 		}
+		addF(fs, "inside the block, after its last transaction")
 	}
 	res.key = stateKey(res.dump, m)
 	res.nontriv = nontrivial(m)
@@ -1241,15 +1238,13 @@ func runNode(hist []Op, open int, pre, preSeal map[string]string) nodeResult {
 		if racc[len(racc)-1] != lastRes.Accepted && !hasTwo(fs) {
 			fs = append(fs, decision(hist[len(hist)-1].K, racc[len(racc)-1], lastRes))
 		}
+		res.sealDump = w2.dump()
+		if racc[len(racc)-1] == lastRes.Accepted {
+			fs = rejectedCheck(fs, preSeal, res.sealDump, lastTx, lastRes)
+		}
 		addF(fs, "after the shared block (block executor)")
 		res.findings = append(res.findings, midF...)
 		res.diverged = res.diverged || midDiv
-	}
-	res.sealDump = w2.dump()
-	if noChange && preSeal != nil && !res.diverged {
-		if d := unchangedButFee(preSeal, res.sealDump, lastTx.Source); d != "" {
-			addF([]finding{{Sig: "C20:rejected-tx-changed-state:" + kindName(lastTx.Kind), Msg: "a transaction rejected for " + lastRes.Reason + " changed: " + d, Diverged: true}}, "after the shared block")
-		}
 	}
 	// epilogue (not part of the state space): release whatever the shared block escrowed
 	if !res.diverged {
@@ -1262,6 +1257,29 @@ func runNode(hist []Op, open int, pre, preSeal map[string]string) nodeResult {
 		}
 	}
 	return res
+}
+
+// rejectedCheck: a transaction that is rejected (or adds nothing) must leave everything but
+// the fee as it was.  When it did not, that is the finding; ledger mismatches observed at
+// the same time are its consequences.
+func rejectedCheck(fs []finding, before, after map[string]string, t refminers.Tx, r refminers.Result) []finding {
+	if before == nil || (r.Accepted && r.Reason != "ok-zero") {
+		return fs
+	}
+	d := unchangedButFee(before, after, t.Source)
+	if d == "" {
+		return fs
+	}
+	out := []finding{{Sig: "C20:rejected-tx-changed-state:" + kindName(t.Kind), Diverged: true,
+		Msg: "a transaction rejected for " + r.Reason + " changed: " + d}}
+	for _, f := range fs {
+		if strings.HasPrefix(f.Sig, "C20:balance") || strings.HasPrefix(f.Sig, "C20:conservation") ||
+			strings.HasPrefix(f.Sig, "C20:escrow") || strings.HasPrefix(f.Sig, "C20:lookup-by-id") {
+			continue
+		}
+		out = append(out, f)
+	}
+	return out
 }
 
 func hasTwo(fs []finding) bool {
